@@ -310,6 +310,10 @@ func init() {
 			Quick:  map[string]int{"GRID": 2, "GRIDMAG": 36, "N": 2, "DEFAULTS": 1, "NUMSHAPEMASK": 43, "KINDS": 4175},
 			Thor:   map[string]int{"GRID": 2, "GRIDMAG": 36, "N": 2, "DEFAULTS": 1, "KINDS": 4175},
 			Panic:  "inconclusive"},
+		{Name: "yaml-vs-json/composed-types", Harness: "pkg/generator:HarnessC17Composite", Layer: "L3",
+			Desc:   "anyOf with a map-typed branch, anyOf of two objects, anyOf whose first branch collects typed additional properties, allOf of a $ref and an object, an object with typed additionalProperties, as a required or optional property, generated with --extra-imports: UnmarshalJSON and UnmarshalYAML of the root type on the same symbolic type-correct document (members absent or of the declared type, one extra integer member): same verdict, equal decoded values including the additional-properties map",
+			Bounds: "five concrete shapes, one extra member per object, symbolic strings and integers",
+			Quick:  map[string]int{"GRID": 2, "GRIDMAG": 36, "E": 1}, Panic: "inconclusive"},
 		{Name: "yaml-vs-json/arrays-and-objects", Harness: "pkg/generator:HarnessC17", Layer: "L3",
 			Desc:   "same for arrays of scalars and a nested object",
 			Bounds: "as above, document arrays <= 2 elements",
